@@ -181,6 +181,11 @@ def programs(tier: str):
         for L in (2, 3):
             for callers in _it2.product(POOLED_CALLERS, repeat=L):
                 yield {"family": "pooled", "kind": kind, "callers": list(callers)}
+        # a LONG-LIVED wrapper: 10 .. 40 (100) consecutive calls through one wrapper object
+        for L in (10, 17, 40) if tier == "quick" else (10, 17, 40, 100):
+            for first in range(3):
+                yield {"family": "pooled", "kind": kind, "callers": [POOLED_CALLERS[(first + i) % 3] for i in range(L)]}
+            yield {"family": "pooled", "kind": kind, "callers": ["empty"] * L}
     for pair in (
         "traced-over-retry",
         "cache-over-retry",
@@ -433,7 +438,12 @@ def _pooled(program, ch: Chooser) -> Result:
     seen: list = []
     try:
 
+        loop_thread = threading.get_ident()
+        on_loop_thread: list = []
+
         def plain(n):
+            if threading.get_ident() == loop_thread:
+                on_loop_thread.append(n)
             v = _THREAD_VAR.get("unset")
             _THREAD_VAR.set(f"left-by-call-{n}")
             return v
@@ -441,6 +451,8 @@ def _pooled(program, ch: Chooser) -> Result:
         class Owner:
             @asynchronous
             def m(self, n):
+                if threading.get_ident() == loop_thread:
+                    on_loop_thread.append(n)
                 v = _THREAD_VAR.get("unset")
                 _THREAD_VAR.set(f"left-by-call-{n}")
                 return v
@@ -482,7 +494,9 @@ def _pooled(program, ch: Chooser) -> Result:
                     seen,
                 )
             )
-        return Result(f"pooled/{program['kind']}/{len(seen)}", True, viols, {"seen": seen, "trace": w.trace}, steps=len(seen))
+        if on_loop_thread:
+            viols.append(viol("off-loop-thread", f"pooled/{program['kind']}/ran-on-the-loop-thread", "every call runs off the event-loop thread", {"calls (0-based)": on_loop_thread[:5], "of": len(program["callers"])}))
+        return Result(f"pooled/{program['kind']}/{len(seen)}", True, viols, {"seen": seen, "trace": w.trace[-40:]}, steps=len(seen))
     finally:
         executor.drain()
         w.close()
